@@ -1,4 +1,4 @@
-From Coq Require Import Lia.
+From Coq Require Import Arith Lia.
 From MV Require Import Model.RaceCfg.
 From MV Require Import Model.LockOrder Proofs.SplitCsSound.
 Open Scope N_scope.
@@ -100,4 +100,45 @@ Proof.
   intros g k Hc. induction Hc as [g|g f h k Hg Hh Hc IH]; intros fk c Hk Hcm.
   - destruct (Hf _ _ Hk) as [H1 _]. apply H1. exact Hcm.
   - destruct (Hf _ _ Hg) as [_ H2]. apply (H2 h Hh). apply (IH fk c Hk Hcm).
+Qed.
+
+(* ---- what acyclicity means for goroutines waiting for each other ---- *)
+(* a chain of nested acquisitions: each pair is (class held, class being acquired); consecutive pairs link up *)
+Fixpoint chained (first : N) (l : list (N * N)) : option N :=   (* where the chain ends, starting at [first] *)
+  match l with
+  | [] => Some first
+  | (h, w) :: r => if h =? first then chained w r else None
+  end.
+
+Lemma chained_snoc : forall l a h w, chained a (l ++ [(h, w)]) = match chained a l with Some m => if h =? m then Some w else None | None => None end.
+Proof.
+  induction l as [|[h1 w1] l IH]; intros a h w; cbn.
+  - destruct (h =? a); reflexivity.
+  - destruct (h1 =? a); [apply IH|reflexivity].
+Qed.
+
+Lemma chain_walk E : forall l a b, l <> [] -> (forall e, In e l -> In e E) -> chained a l = Some b -> walk E a b (length l).
+Proof.
+  induction l as [|[h w] r IH] using rev_ind; intros a b Hne Hin Hch; [congruence|].
+  rewrite chained_snoc in Hch. destruct (chained a r) as [m|] eqn:Hm; [|discriminate].
+  destruct (h =? m) eqn:Q; [|discriminate]. apply N.eqb_eq in Q. subst h. inversion Hch; subst w.
+  rewrite app_length. cbn [length]. rewrite Nat.add_1_r.
+  destruct r as [|x r'].
+  - cbn in Hm. inversion Hm; subst m. cbn. apply walk1. apply Hin. left. reflexivity.
+  - apply walkS with (b := m).
+    + apply IH; [discriminate| |exact Hm]. intros e He. apply Hin. apply in_or_app. left. exact He.
+    + apply Hin. apply in_or_app. right. left. reflexivity.
+Qed.
+
+(* what the lock-order check means for waiting goroutines: suppose goroutines g1 .. gk each hold a mutex of class h_i and
+   are blocked acquiring one of class w_i -- a nested acquisition, so (h_i, w_i) is one of the program's order edges -- and
+   the one g_i waits for is held by g_(i+1), the last one's by g1.  With order_ok there is no such circle of at most
+   ncl + 1 goroutines. *)
+Theorem no_wait_circle ncl edges : order_ok ncl edges = true ->
+  forall (waits : list (N * N)) a, waits <> [] -> (length waits <= S ncl)%nat ->
+  (forall e, In e waits -> In e (strict_edges edges)) -> chained a waits = Some a -> False.
+Proof.
+  intros H waits a Hne Hlen Hin Hch.
+  apply (order_ok_no_cycle ncl edges H a (length waits)); [|exact Hlen].
+  apply chain_walk; assumption.
 Qed.
